@@ -339,4 +339,73 @@ theorem regMapXdma_nodup_of_len (cfg : Cfg) (h4 : 4 ≤ (xdmaSetupFields cfg).le
     refine ⟨⟨⟨by omega, by omega, fun a h1 h2 => by omega⟩, fun a h1 h2 => ⟨by omega, by omega, fun c hc => by omega⟩⟩,
       fun a h1 h2 c hc => by omega⟩
 
+/-! ### completeness: every name an accelerator object uses is declared -/
+
+theorem keys_enumFrom (b : Nat) (l : List String) : (enumFrom b l).map (·.1) = l := by
+  induction l generalizing b with
+  | nil => rfl
+  | cons f fs ih => simp [enumFrom, ih]
+
+theorem regMapGemmx_complete (cfg : Cfg) (n : Nat) :
+    ∀ f ∈ gemmxFieldNames cfg n, (lookup (regMapGemmx cfg n).fields f).isSome := by
+  intro f hf
+  apply mkStreamerMap_complete
+  simpa [gemmxFieldNames, gemmxExtraFields, keys_enumFrom, List.append_assoc] using hf
+
+theorem mem_keys_dictOf_enumFrom {f : String} (b : Nat) (l : List String) (h : f ∈ l) :
+    f ∈ keys (dictOf (enumFrom b l)) := by
+  obtain ⟨e, he, rfl⟩ := mem_enumFrom_of_mem b l h
+  exact (keys_dictUpdate_complete [] (enumFrom b l)).2 e he
+
+theorem regMapPhs_complete (cfg : Cfg) (sw : Nat) :
+    ∀ f ∈ phsFieldNames cfg sw, (lookup (regMapPhs cfg sw).fields f).isSome := by
+  intro f hf
+  apply mkStreamerMap_complete
+  unfold phsFieldNames at hf
+  rw [List.mem_append]
+  rcases List.mem_append.mp hf with hf | hf
+  · rcases List.mem_append.mp hf with hf | hf
+    · exact Or.inl hf
+    · right
+      have := mem_keys_dictOf_enumFrom (streamerLaunchDict (streamerSetupDict base (setupFields cfg)).1 ["launch_streamer"]).1 _ hf
+      unfold keys at this
+      rw [List.mem_map] at this ⊢
+      obtain ⟨e, he, rfl⟩ := this
+      exact ⟨e, List.mem_append_left _ (by simpa [phsSwitchDict] using he), rfl⟩
+  · right
+    rw [List.mem_singleton] at hf; subst hf
+    rw [List.mem_map]
+    exact ⟨_, List.mem_append_right _ (List.mem_singleton.mpr rfl), rfl⟩
+
+theorem regMapXdma_complete (cfg : Cfg) :
+    ∀ f ∈ xdmaFieldNames cfg, (lookup (regMapXdma cfg).fields f).isSome := by
+  intro f hf
+  apply lookup_isSome_of_mem_keys
+  unfold xdmaFieldNames at hf
+  unfold regMapXdma
+  simp only
+  rw [← List.take_append_drop 4 (xdmaSetupFields cfg)] at hf
+  obtain ⟨h1, h2⟩ := keys_dictUpdate_complete (dictOf (enumFrom base ((xdmaSetupFields cfg).take 4)))
+    (enumFrom (base + 2 + 2 * maxMulticastDest) ((xdmaSetupFields cfg).drop 4))
+  rcases List.mem_append.mp hf with hf | hf
+  · exact h1 f (mem_keys_dictOf_enumFrom _ _ hf)
+  · obtain ⟨e, he, rfl⟩ := mem_enumFrom_of_mem (base + 2 + 2 * maxMulticastDest) _ hf
+    exact h2 e he
+
+/-- launch registers: the names the accelerator objects put into their launch ops are declared -/
+theorem mkStreamerMap_launch_complete (b : Nat) (sf : List String) (extraF extraL : Nat → List (String × Nat))
+    (barrier : Nat → Nat) :
+    ∀ f ∈ "launch_streamer" :: (extraL (streamerLaunchDict (streamerSetupDict b sf).1 ["launch_streamer"]).1).map (·.1),
+      (lookup (mkStreamerMap b sf extraF extraL barrier).launch f).isSome := by
+  intro f hf
+  apply lookup_isSome_of_mem_keys
+  unfold mkStreamerMap
+  obtain ⟨h1, h2⟩ := keys_dictUpdate_complete (streamerLaunchDict (streamerSetupDict b sf).1 ["launch_streamer"]).2
+    (extraL (streamerLaunchDict (streamerSetupDict b sf).1 ["launch_streamer"]).1)
+  rcases List.mem_cons.mp hf with rfl | hf
+  · apply h1
+    exact mem_keys_dictOf_enumFrom _ _ (List.mem_singleton.mpr rfl)
+  · rw [List.mem_map] at hf
+    obtain ⟨e, he, rfl⟩ := hf
+    exact h2 e he
 end SnaxVerif.RegMap
